@@ -131,41 +131,52 @@ func (srv *Server) Characteristics(w http.ResponseWriter, r *http.Request) {
 			return
 		}
 
+		// Every entry of the request gets an entry in the response. When all of them succeeded the
+		// response has no content, otherwise it is a multi-status response with a status for every entry.
 		resp := &CharacteristicsResponse{}
+		failed := false
 		for _, ch := range req.Characteristics {
+			status := hap.StatusSuccess
 			c := srv.getCharacteristic(ch.AccessoryID, ch.CharacteristicID)
 			if c == nil {
 				log.Info.Printf("Could not find characteristic with aid %d and iid %d\n", ch.AccessoryID, ch.CharacteristicID)
-				continue
-			}
-
-			if ch.Value != nil {
-				c.UpdateValueFromConnection(ch.Value, conn)
-			}
-
-			if ch.Events != nil {
-				if !c.IsObservable() {
-					status := hap.StatusNotificationNotSupported
-					err := CharacteristicResponse{AccessoryID: ch.AccessoryID, CharacteristicID: ch.CharacteristicID, Status: &status}
-					resp.Characteristics = append(resp.Characteristics, err)
-					continue
+				status = hap.StatusResourceDoesNotExist
+			} else {
+				if ch.Value != nil {
+					if c.IsWritable() {
+						c.UpdateValueFromConnection(ch.Value, conn)
+					} else {
+						status = hap.StatusReadOnlyCharacteristic
+					}
 				}
 
-				if events, ok := ch.Events.(bool); ok == true {
-					if events {
-						sess.Subscribe(c)
-					} else {
-						sess.Unsubscribe(c)
+				if ch.Events != nil {
+					if !c.IsObservable() {
+						status = hap.StatusNotificationNotSupported
+					} else if events, ok := ch.Events.(bool); ok == true {
+						if events {
+							sess.Subscribe(c)
+						} else {
+							sess.Unsubscribe(c)
+						}
 					}
 				}
 			}
+
+			if status != hap.StatusSuccess {
+				failed = true
+			}
+
+			s := status
+			resp.Characteristics = append(resp.Characteristics, CharacteristicResponse{AccessoryID: ch.AccessoryID, CharacteristicID: ch.CharacteristicID, Status: &s})
 		}
 
-		if len(resp.Characteristics) == 0 {
+		if !failed {
 			w.WriteHeader(http.StatusNoContent)
 			return
 		}
 
+		w.WriteHeader(http.StatusMultiStatus)
 		WriteJSON(w, r, resp)
 
 	default:
